@@ -1245,25 +1245,69 @@ public:
     }
     else if_constexpr_named(cond2, detail::rlbox_is_tainted_v<T_Rhs>)
     {
-      using namespace detail;
-      convert_type_non_class<T_Sbx,
-                             adjust_type_direction::TO_SANDBOX,
-                             adjust_type_context::EXAMPLE>(
-        get_sandbox_value_ref(),
-        val.get_raw_value_ref(),
-        example_unsandboxed_ptr,
-        nullptr /* sandbox_ptr */);
+      using T_RhsVal = detail::rlbox_remove_wrapper_t<T_Rhs>;
+      if_constexpr_named(
+        subcond1,
+        !std::is_same_v<T_Sbx, detail::rlbox_get_wrapper_sandbox_t<T_Rhs>>)
+      {
+        rlbox_detail_static_fail_because(
+          subcond1,
+          "Mixing tainted data from a different sandbox type. Unwrap the "
+          "tainted data with copy_and_verify or other unwrapping APIs first.");
+      }
+      else if_constexpr_named(subcond2,
+                              std::is_pointer_v<T> &&
+                                !std::is_assignable_v<T&, T_RhsVal>)
+      {
+        rlbox_detail_static_fail_because(
+          subcond2,
+          "Trying to assign a tainted pointer to a field of an incompatible "
+          "pointer type. Use sandbox_reinterpret_cast first.");
+      }
+      else
+      {
+        using namespace detail;
+        convert_type_non_class<T_Sbx,
+                               adjust_type_direction::TO_SANDBOX,
+                               adjust_type_context::EXAMPLE>(
+          get_sandbox_value_ref(),
+          val.get_raw_value_ref(),
+          example_unsandboxed_ptr,
+          nullptr /* sandbox_ptr */);
+      }
     }
     else if_constexpr_named(cond3, detail::rlbox_is_tainted_volatile_v<T_Rhs>)
     {
-      using namespace detail;
-      convert_type_non_class<T_Sbx,
-                             adjust_type_direction::NO_CHANGE,
-                             adjust_type_context::EXAMPLE>(
-        get_sandbox_value_ref(),
-        val.get_sandbox_value_ref(),
-        example_unsandboxed_ptr,
-        nullptr /* sandbox_ptr */);
+      using T_RhsVal = detail::rlbox_remove_wrapper_t<T_Rhs>;
+      if_constexpr_named(
+        subcond1,
+        !std::is_same_v<T_Sbx, detail::rlbox_get_wrapper_sandbox_t<T_Rhs>>)
+      {
+        rlbox_detail_static_fail_because(
+          subcond1,
+          "Mixing tainted data from a different sandbox type. Unwrap the "
+          "tainted data with copy_and_verify or other unwrapping APIs first.");
+      }
+      else if_constexpr_named(subcond2,
+                              std::is_pointer_v<T> &&
+                                !std::is_assignable_v<T&, T_RhsVal>)
+      {
+        rlbox_detail_static_fail_because(
+          subcond2,
+          "Trying to assign a tainted pointer to a field of an incompatible "
+          "pointer type. Use sandbox_reinterpret_cast first.");
+      }
+      else
+      {
+        using namespace detail;
+        convert_type_non_class<T_Sbx,
+                               adjust_type_direction::NO_CHANGE,
+                               adjust_type_context::EXAMPLE>(
+          get_sandbox_value_ref(),
+          val.get_sandbox_value_ref(),
+          example_unsandboxed_ptr,
+          nullptr /* sandbox_ptr */);
+      }
     }
     else if_constexpr_named(cond4, detail::rlbox_is_sandbox_callback_v<T_Rhs>)
     {
@@ -1271,7 +1315,16 @@ public:
 
       // need to perform some typechecking to ensure we are assigning compatible
       // function pointer types only
-      if_constexpr_named(subcond1, !std::is_assignable_v<T&, T_RhsFunc>)
+      if_constexpr_named(
+        subcond0,
+        !std::is_same_v<T_Sbx, detail::rlbox_get_wrapper_sandbox_t<T_Rhs>>)
+      {
+        rlbox_detail_static_fail_because(
+          subcond0,
+          "Trying to assign a callback registered with a different sandbox "
+          "type");
+      }
+      else if_constexpr_named(subcond1, !std::is_assignable_v<T&, T_RhsFunc>)
       {
         rlbox_detail_static_fail_because(
           subcond1,
